@@ -7,6 +7,7 @@ import GoLevel.Proofs.LocksRO
 import GoLevel.Proofs.LocksEnabled
 import GoLevel.Proofs.LocksRuns
 import GoLevel.Proofs.LocksKeep
+import GoLevel.Proofs.TrClose
 /-!
 # Property C09 — every call returns; a failing call releases what it acquired; the DB recovers
 
@@ -60,6 +61,19 @@ or after `Close` — and `Close` still returns in every schedule (`code_all_clos
 `compLockedC` arm is the step `clAcqKept`; `hang_without_hasperr_keep`, `hang_without_close_select`: each half of the
 repair alone hangs `Close`).  Everything but `readonly_no_write_after_close` also holds for the configuration as found
 (`asFound_covered`).
+
+**`OpenTransaction` racing `Close`** (D43, `Model/TrClose.lean`): the lock-flow model above has one transaction object
+and lets `Close` look at it once (`clCheckTr`), which is why `close_returns` carries the exception "unless a user
+transaction was opened behind its back".  The interleaving model `TrClose` has any number of `OpenTransaction`
+callers against one `Close`, with `db.tr`, `trMu`, the closed flag and `closeC` explicit.  For the source since
+bfb31ce (`code_tx_registration`: `OpenTransaction` registers under `trMu`, reads the closed flag in the same critical
+section and discards its own transaction if it is set; `Close` reads `db.tr` under `trMu` after `setClosed` and
+`close(closeC)`), in EVERY interleaving: when `Close` reaches its lock acquisition no transaction is in a client's
+hands — `Close` saw and discarded it, or its `OpenTransaction` saw the flag and is discarding it itself, returning
+`ErrClosed` (`tx_close_no_live_transaction`) — hence `Close` acquires the lock in every schedule, with clients that
+never call `Discard` after `ErrClosed` (`tx_close_returns`).  For the source as found, the decided run in which
+`Close` waits for ever for a transaction nobody will end (`tx_close_hangs_as_found`), and the same for the
+unsynchronised look at `db.tr` alone (`tx_close_hangs_with_racy_read`).
 
 The leak theorems (`leak_commit`, `leak_opentx`, `leak_largebatch`, `leak_setreadonly`, stated for `Cfg.asIs`)
 show what each of the four repairs prevents: an explicit run and an invariant proving that the resource is
@@ -701,7 +715,8 @@ ready arms, `writeLockC` and `closeC`: the step to `t` takes the lock — the `P
 goes on to `u`, where it has written to the journal and the memdb of a read-only DB and returned nil.  (With a DB
 *opened* read-only there is no journal: nil dereference, the lock stays taken, `Close` hangs.)  The same window
 exists after a corruption error.  Reproduced on that source by `vh -prop C18` / `C09`, signatures
-`put:readonly-close-race:write-accepted`, `put:readonly-close-race:panic`, `close:hang:racing-clients`. -/
+`put:readonly-close-race:write-accepted`, `put:readonly-close-race:panic:journal.(*Writer).Next`,
+`close:close-race:hang:after-client-panic`. -/
 theorem readonly_write_slips_through_on_close :
     ∃ s t u, Reachable Cfg.asFound s ∧ s.ro = true ∧ s.closed = true ∧ s.tok = false ∧
       s.ws[0]? = some (.ret true) ∧ s.ws[1]? = some .putSel ∧ s.ws[2]? = some .clAcq ∧
@@ -765,6 +780,157 @@ theorem asFound_lock_not_kept : ¬ ∀ s, Reachable Cfg.asFound s → s.ro = tru
   have := (h stROGap ⟨3, runROGap⟩ rfl).1
   revert this; decide
 
+/-! ## `OpenTransaction` racing `Close` (D43; `Model/TrClose.lean`) -/
+
+section TxClose
+open GoLevel.TrClose (OPc CPc)
+
+/-- **the tie of the repair of D43**: `OpenTransaction` does `db.trMu.Lock(); db.tr = tr; closed := db.isClosed();
+db.trMu.Unlock()` and discards its transaction itself when `closed`; `setDone` clears `db.tr` under `trMu`; `Close`
+reads `db.tr` under `trMu`, once, after `setClosed` and `close(db.closeC)`, and discards what it saw (regenerated
+facts `trOpenRegistersThenChecksClosed`, `trCloseReadsUnderMuAfterClosed`) -/
+theorem code_tx_registration : TrClose.codeCfg = TrClose.Cfg.repaired := by decide
+
+theorem tx_seen (s : TrClose.St) (hr : TrClose.Reachable TrClose.codeCfg s) : TrClose.Inv s ∧ TrClose.SeenInv s := by
+  obtain ⟨n, c, hs⟩ := hr
+  have c1 : TrClose.codeCfg.otxChecks = true := by decide
+  have c2 : TrClose.codeCfg.closeLocked = true := by decide
+  exact TrClose.steps_inv _ (fun s => TrClose.Inv s ∧ TrClose.SeenInv s)
+    (fun s t h g => ⟨TrClose.step_inv _ s t h g.1, TrClose.step_seenInv _ c1 c2 s t h g.1 g.2⟩) _ _ hs
+    ⟨TrClose.inv_init n c, TrClose.seenInv_init n c⟩
+
+/-- **No transaction is left in a client's hands behind `Close`'s back**, in every interleaving of any number of
+`OpenTransaction` calls (each followed by whatever its client does with the transaction) with `Close`, for the
+code's configuration.  In every reachable state in which `Close` is at (or past) the acquisition of the write lock:
+* no goroutine is `live` (holding a transaction `OpenTransaction` returned, which nobody has ended): every transaction
+  that was open when `Close` looked at `db.tr` was the one it saw, and has been discarded by `Close`
+  (`endedClose`); every `OpenTransaction` that registers later sees the closed flag and discards its own transaction
+  (`selfDiscard`, then `ErrClosed`);
+* whoever holds the write lock is such an `OpenTransaction` on its way out (`body`: it may still fail or register;
+  `reg`; `selfDiscard`), or `Close` itself;
+* the token in `writeLockC` has exactly that owner. -/
+theorem tx_close_no_live_transaction (s : TrClose.St) (hr : TrClose.Reachable TrClose.codeCfg s)
+    (hc : s.cl = .atAcq ∨ s.cl = .done) :
+    (∀ (i : Nat), s.os[i]? ≠ some .live) ∧
+    (∀ (i : Nat) (p : OPc), s.os[i]? = some p → TrClose.holds p = true →
+      p = .body ∨ p = .reg ∨ p = .selfDiscard false) ∧
+    (s.tok = true → s.cl = .done ∨ ∃ (i : Nat) (p : OPc), s.os[i]? = some p ∧ TrClose.holds p = true) := by
+  obtain ⟨inv, k⟩ := tx_seen s hr
+  have hp : s.cl.pastDiscard = true := by rcases hc with h | h <;> rw [h] <;> rfl
+  refine ⟨k.2 hp, fun i p hi hh => ?_, fun ht => ?_⟩
+  · have := k.2 hp i
+    cases p <;> simp_all [TrClose.holds]
+    rename_i e; cases e <;> simp_all [TrClose.holds]
+  · have hne := inv.tokOwner.mp ht
+    cases ho : s.owner with
+    | none => exact absurd ho hne
+    | some o =>
+      cases o with
+      | close => exact Or.inl (inv.closeOwner.mp ho)
+      | thr i =>
+        have hl := inv.ownerValid i ho
+        have hi : s.os[i]? = some s.os[i] := List.getElem?_eq_getElem hl
+        exact Or.inr ⟨i, _, hi, (inv.thrOwner i _ hi).mpr ho⟩
+
+/-- **`Close` acquires the write lock in every schedule** of the code's configuration — clients that take `ErrClosed`
+from `Commit` as final and never call `Discard` included (`St.coop = false`): every step decreases `measure`, so every
+run is finite whatever the scheduler; from every state some run cannot be extended; and a run from a reachable state
+in which `Close` has been called that cannot be extended ends with `Close` past the acquisition. -/
+theorem tx_close_returns (s : TrClose.St) (hr : TrClose.Reachable TrClose.codeCfg s) (hs : s.cl ≠ .idle) :
+    (∀ t u, TrClose.Step TrClose.codeCfg t u → TrClose.measure u < TrClose.measure t) ∧
+    (∃ t, TrClose.Steps TrClose.codeCfg s t ∧ ¬ ∃ u, TrClose.Step TrClose.codeCfg t u) ∧
+    (∀ t, TrClose.Steps TrClose.codeCfg s t → (¬ ∃ u, TrClose.Step TrClose.codeCfg t u) → t.cl = .done) := by
+  refine ⟨TrClose.step_measure _, TrClose.settle _ s, fun t ht hq => ?_⟩
+  have hst : s.cl.started = true := by cases h : s.cl <;> simp_all [TrClose.CPc.started]
+  have hrt : TrClose.Reachable TrClose.codeCfg t := by
+    obtain ⟨n, c, h0⟩ := hr; exact ⟨n, c, TrClose.Steps.trans h0 ht⟩
+  obtain ⟨inv, k⟩ := tx_seen t hrt
+  cases hd : t.cl with
+  | done => rfl
+  | _ =>
+    exact absurd (TrClose.close_progress _ t inv k (TrClose.steps_started _ s t ht hst) (by rw [hd]; simp)) hq
+
+/-- `OpenTransaction` (goroutine 0) holds the write lock and has not registered yet; `Close` set the flag, closed
+`closeC`, looked at `db.tr` (nil) and waits for the write lock; `OpenTransaction` registers — without a look at the
+flag — and returns the transaction; its client gets `ErrClosed` from `Commit` and takes that as final -/
+def stTxHang : TrClose.St :=
+  { os := [.live], cl := .atAcq, tok := true, closed := true, closeC := true, tr := some 0, owner := some (.thr 0) }
+
+/-- **DEFECT (repaired by bfb31ce, D43)**, a decided run of the configuration as found (`Close` looks at `db.tr`
+once, `OpenTransaction` registers without looking at the closed flag): `stTxHang` is reachable, a transaction is in
+its client's hands on a closed DB, `Close` is at `db.writeLockC <- struct{}{}`, and NO step is enabled: `Close` hangs
+until somebody calls `Discard`.  (Reproduced on that source by `vh -prop C18` / `C09`, signature
+`close:close-race:hang:open-transaction-not-discarded`.) -/
+theorem tx_close_hangs_as_found :
+    TrClose.Reachable TrClose.Cfg.asFound stTxHang ∧ stTxHang.cl = .atAcq ∧ stTxHang.os[0]? = some .live ∧
+    stTxHang.closed = true ∧ ¬ ∃ t, TrClose.Step TrClose.Cfg.asFound stTxHang t := by
+  refine ⟨⟨1, false, ?_⟩, rfl, rfl, rfl, ?_⟩
+  · have h := TrClose.Steps.refl (cfg := TrClose.Cfg.asFound) (TrClose.init 1 false)
+    have h := h.step (TrClose.Step.oStart _ 0 rfl)
+    have h := h.step (TrClose.Step.oSelTok _ 0 rfl rfl)
+    have h := h.step (TrClose.Step.oBodyOk _ 0 rfl)
+    have h := h.step (TrClose.Step.cStart _ rfl)
+    have h := h.step (TrClose.Step.cCloseC _ rfl)
+    have h := h.step (TrClose.Step.cRead _ rfl)
+    have h := h.step (TrClose.Step.cDiscardNone _ rfl)
+    have h := h.step (TrClose.Step.oReg _ 0 rfl)
+    exact h
+  · rintro ⟨t, h⟩
+    cases h <;> first
+      | (rename_i i hi; rcases i with _ | i <;> simp [stTxHang] at hi; done)
+      | (rename_i i hi _; rcases i with _ | i <;> simp [stTxHang] at hi; done)
+      | (rename_i i _ hi; rcases i with _ | i <;> simp [stTxHang] at hi; done)
+      | (rename_i hc; simp [stTxHang] at hc; done)
+      | (rename_i hc _; simp [stTxHang] at hc; done)
+      | (rename_i _ hc; simp [stTxHang] at hc; done)
+      | (rename_i _ _ hc _; simp [stTxHang] at hc; done)
+
+/-- the registration under `trMu` alone is not enough: with the unsynchronised look at `db.tr` (a data race: it may
+miss a registration that happened before) `Close` misses a transaction that was opened BEFORE it was called -/
+theorem tx_close_hangs_with_racy_read :
+    TrClose.Reachable { otxChecks := true, closeLocked := false } stTxHang ∧
+    ¬ ∃ t, TrClose.Step { otxChecks := true, closeLocked := false } stTxHang t := by
+  refine ⟨⟨1, false, ?_⟩, ?_⟩
+  · have h := TrClose.Steps.refl (cfg := { otxChecks := true, closeLocked := false }) (TrClose.init 1 false)
+    have h := h.step (TrClose.Step.oStart _ 0 rfl)
+    have h := h.step (TrClose.Step.oSelTok _ 0 rfl rfl)
+    have h := h.step (TrClose.Step.oBodyOk _ 0 rfl)
+    have h := h.step (TrClose.Step.oReg _ 0 rfl)
+    have h := h.step (TrClose.Step.cStart _ rfl)
+    have h := h.step (TrClose.Step.cCloseC _ rfl)
+    have h := h.step (TrClose.Step.cReadStale _ rfl rfl)
+    have h := h.step (TrClose.Step.cDiscardNone _ rfl)
+    exact h
+  · rintro ⟨t, h⟩
+    cases h <;> first
+      | (rename_i i hi; rcases i with _ | i <;> simp [stTxHang] at hi; done)
+      | (rename_i i hi _; rcases i with _ | i <;> simp [stTxHang] at hi; done)
+      | (rename_i i _ hi; rcases i with _ | i <;> simp [stTxHang] at hi; done)
+      | (rename_i hc; simp [stTxHang] at hc; done)
+      | (rename_i hc _; simp [stTxHang] at hc; done)
+      | (rename_i _ hc; simp [stTxHang] at hc; done)
+      | (rename_i _ _ hc _; simp [stTxHang] at hc; done)
+
+/-- non-vacuity: the schedule of `tx_close_hangs_as_found` in the code's configuration — `OpenTransaction` sees the
+flag, discards its transaction, returns `ErrClosed`; `Close` acquires the lock -/
+example : TrClose.Reachable TrClose.Cfg.repaired
+    { os := [.retClosed], cl := .done, tok := true, closed := true, closeC := true, owner := some .close } := by
+  refine ⟨1, false, ?_⟩
+  have h := TrClose.Steps.refl (cfg := TrClose.Cfg.repaired) (TrClose.init 1 false)
+  have h := h.step (TrClose.Step.oStart _ 0 rfl)
+  have h := h.step (TrClose.Step.oSelTok _ 0 rfl rfl)
+  have h := h.step (TrClose.Step.oBodyOk _ 0 rfl)
+  have h := h.step (TrClose.Step.cStart _ rfl)
+  have h := h.step (TrClose.Step.cCloseC _ rfl)
+  have h := h.step (TrClose.Step.cRead _ rfl)
+  have h := h.step (TrClose.Step.cDiscardNone _ rfl)
+  have h := h.step (TrClose.Step.oReg _ 0 rfl)
+  have h := h.step (TrClose.Step.oSelfDiscard _ 0 false rfl)
+  have h := h.step (TrClose.Step.cAcq _ rfl rfl)
+  exact h
+
+end TxClose
+
 def theorems : List String :=
   ["GoLevel.C09.code_three_fixed", "GoLevel.C09.code_comperr_machine", "GoLevel.C09.code_hands_over",
    "GoLevel.C09.code_all_fixed",
@@ -782,6 +948,8 @@ def theorems : List String :=
    "GoLevel.C09.readonly_write_slips_through_on_close", "GoLevel.C09.readonly_no_write_after_close",
    "GoLevel.C09.repaired_no_write_after_close", "GoLevel.C09.asFound_lock_not_kept",
    "GoLevel.C09.code_keeps_lock", "GoLevel.C09.code_m", "GoLevel.C09.asFound_covered",
+   "GoLevel.C09.code_tx_registration", "GoLevel.C09.tx_close_no_live_transaction", "GoLevel.C09.tx_close_returns",
+   "GoLevel.C09.tx_close_hangs_as_found", "GoLevel.C09.tx_close_hangs_with_racy_read",
    "GoLevel.C09.released_on_return", "GoLevel.C09.released_on_return_partial", "GoLevel.C09.locks_have_owners",
    "GoLevel.C09.nothing_held_when_quiet", "GoLevel.C09.progress",
    "GoLevel.C09.recovers_after_faults", "GoLevel.C09.close_returns",
